@@ -321,8 +321,10 @@ C05(sn, calls) == C05Raw(Eff(sn, calls), calls)
 C06(sn, calls) == C06Raw(Eff(sn, calls), calls)
 \* "built from the current revision" (below the partition) has a meaning over time only if the current revision moves
 \* by C12's rule; so C07 includes that rule for every status write
+\* ... and if the current revision stays in the history for as long as it is current (C13's liveness rule)
 C07(sn, calls) == /\ C07Raw(Eff(sn, calls), calls)
                   /\ \A k \in Idx(calls) : IsStatus(calls[k]) => CurAdvanceOK(Eff(sn, calls), calls, k)
+                  /\ \A k \in Idx(calls) : IsRevDelete(calls[k]) => Name(calls[k]) \notin Live(Eff(sn, calls), calls)
 C10(sn, calls, res) == C10Raw(sn, calls, res)
 C11(sn, calls) == C11Raw(sn, calls)
 C12(sn, calls) == C12Raw(Eff(sn, calls), calls)
